@@ -633,7 +633,7 @@ theorem half_close_keeps_reverse_direction (e : EP) (hd i fid : Nat) (o : Obj) (
     (hh : e.handles[hd]? = some i) (ho : e.objs[i]? = some o) (hoc : e.outClosed = false)
     (hs : lookup e.flows fid = some (.established i)) :
     (o.finishSent = false →
-        (appShutdown e hd).1.objs[i]? = some { o with finishSent := true } ∧
+        (appShutdown e hd).1.objs[i]? = some { o with finishSent := true, parked := false } ∧
         (appShutdown e hd).1.outq = e.outq ++ [.frame (.finish o.fid)]) ∧
     ((processFrame e (.finish fid) ig).1.objs[i]? = some { o with senderAlive := false } ∧
      (processFrame e (.finish fid) ig).1.outq = e.outq ∧
